@@ -51,6 +51,19 @@ def _replay_run(binp, harness, vals):
 
 def replay_file(prop, path):
     d = json.load(open(path))
+    if d.get("witness_search") and d.get("inputs"):
+        binp, err = _replay_build()
+        if not binp:
+            print("replay crate failed to build: " + err)
+            return 2
+        import subprocess
+        pr = subprocess.run([binp, "--stdin"], input=json.dumps({"defrag_history": d["inputs"]}), stdout=subprocess.PIPE,
+                            stderr=subprocess.PIPE, text=True, timeout=120, env=common.env())
+        print(pr.stdout.strip())
+        if '"violation"' in pr.stdout:
+            print("VIOLATION property=%s replay=%s" % (prop, path))
+            return 1
+        return 0
     if not d.get("inputs") or not d.get("harness"):
         print("replay file carries no concrete input (obligation %s); verifier output:\n%s" % (d.get("obligation"), d.get("verifier_output", "")[:3000]))
         return 1
@@ -255,6 +268,24 @@ def check_property(pid, tier, seed, canary=True):
                         break
                 if reproduced:
                     break
+            # units with an execution-based witness finder (bounded search on the real code; finder only)
+            ws = cfg.get("witness_search", {}).get(v.get("unit")) if v["engine"] == "verus" else None
+            if ws and not reproduced:
+                if binp is None:
+                    binp, err = _replay_build()
+                if binp:
+                    import subprocess
+                    try:
+                        pr = subprocess.run([binp, "--stdin"], input=json.dumps(ws), stdout=subprocess.PIPE, stderr=subprocess.PIPE,
+                                            text=True, timeout=600, env=common.env())
+                        rr = json.loads(pr.stdout.strip().split("\n")[-1])
+                    except Exception as ex:
+                        rr = {"outcome": "error", "detail": str(ex)}
+                    rep["replay"] = rr
+                    rep["witness_search"] = ws
+                    if rr.get("outcome") == "violation":
+                        rep["inputs"] = rr.get("defrag_history")
+                        reproduced = True
             write_json(path, rep)
             line = "VIOLATION property=%s replay=%s" % (pid, path)
             if not reproduced:
